@@ -1612,7 +1612,9 @@ pub fn run_c07(w: &mut W) {
         // 3 only mentioned by a template record the parser rejected (IPFIX: no non-zero-length
         //   field) or that arrived truncated (both protocols)
         // 4 received and used, then removed from the public cache map by the application
-        let reason = rng.below(5);
+        // 5 received and used, then filed under another key of the public map by the application
+        //   (the parser holds no template *under that id* any more)
+        let reason = rng.below(6);
         let mut ex = Exporter::new();
         let mut sut = Sut::new(2);
         // some known templates + the withheld one
@@ -1653,7 +1655,7 @@ pub fn run_c07(w: &mut W) {
             // every fourth orphan carries no complete record: an empty body or a few bytes shorter
             // than one record (still data for an unknown id; once the template is known it is a
             // data flowset with zero records whose body is padding)
-            if reason != 4 && rng.chance(1, 4) {
+            if reason < 4 && rng.chance(1, 4) {
                 let rs = t.rec_size();
                 let n = if rs <= 1 || rng.chance(1, 2) { 0 } else { 1 + rng.usize((rs - 1).min(3)) };
                 let body = rng.bytes(n);
@@ -1681,7 +1683,7 @@ pub fn run_c07(w: &mut W) {
             t.id = wid;
             shadow.ix_t.insert(wid, t.clone());
             let mut d = shadow.ipfix_data(&mut rng, &cfg, wid, false, &t.fields);
-            if reason != 4 && rng.chance(1, 4) {
+            if reason < 4 && rng.chance(1, 4) {
                 let rs: usize = t.fields.iter().map(|f| if f.len == 65535 { 1 } else { f.len as usize }).sum();
                 let n = if rs <= 1 || rng.chance(1, 2) { 0 } else { 1 + rng.usize((rs - 1).min(3)) };
                 d = IpfixSet::Data { id: wid, options: false, fields: t.fields.clone(), records: vec![], padding: rng.bytes(n) };
@@ -1745,7 +1747,22 @@ pub fn run_c07(w: &mut W) {
             }
             w.rep.count("templates_removed_by_application", 1);
         }
-        w.rep.count(&format!("reason.{}", ["never-defined", "other-protocol-only", "other-parser-only", "rejected-or-truncated-template-only", "removed-by-application"][reason as usize]), 1);
+        if reason == 5 {
+            sut.parse(0, &tmpl_pkt);
+            let warm = if v9 { shadow.v9_wrap(&mut rng, &cfg, vec![data_fs_v9.clone().unwrap()]).wire() } else { shadow.ipfix_wrap(&mut rng, vec![data_set_ix.clone().unwrap()]).wire() };
+            let r = sut.parse(0, &warm);
+            if r.len() != 1 || r[0].is_error() {
+                w.rep.inconclusive += 1;
+                continue;
+            }
+            let to = 40000 + rng.below(20000) as u16;
+            if !sut.rekey(0, if v9 { "v9.templates" } else { "ipfix.templates" }, wid, to) {
+                w.rep.inconclusive += 1;
+                continue;
+            }
+            w.rep.count("templates_rekeyed_by_application", 1);
+        }
+        w.rep.count(&format!("reason.{}", ["never-defined", "other-protocol-only", "other-parser-only", "rejected-or-truncated-template-only", "removed-by-application", "filed-under-another-key-by-application"][reason as usize]), 1);
         // the packet with the orphan data set: known data sets before/after it
         let pos = rng.below(3); // 0 first, 1 middle, 2 last
         let mk_known_v9 = |ex: &Exporter, rng: &mut Rng| -> Option<V9FlowSet> {
